@@ -262,5 +262,33 @@ int handle_line(char *l)
 		putchar('\n');
 		return 1;
 	}
+	if (!strcmp(t, "E")) {
+		/* E qtype id edns0 namehex : (C10) the client's query encoder exactly as send_query calls
+		 * it (4096-byte packet, hostname, strlen) for an arbitrary name / type / id; prints the
+		 * datagram */
+		struct query q;
+		static char pkt[4096];
+		static char host[4200];
+		int qtype = atoi(next_tok(&p));
+		int id = atoi(next_tok(&p));
+		int edns = atoi(next_tok(&p));
+		size_t n = unhex(next_tok(&p), in);
+		int len, save = dnsc_use_edns0;
+		if (n > 4100) n = 4100;
+		memcpy(host, in, n);
+		host[n] = 0;
+		memset(&q, 0, sizeof(q));
+		q.type = qtype;
+		q.id = id;
+		dnsc_use_edns0 = edns;
+		len = dns_encode(pkt, sizeof(pkt), &q, QR_QUERY, host, strlen(host));
+		dnsc_use_edns0 = save;
+		if (len < 1)
+			printf("NOSEND 0");
+		else
+			puthex((unsigned char *)pkt, len);
+		putchar('\n');
+		return 1;
+	}
 	return 0;
 }
